@@ -38,6 +38,8 @@ PROPERTY = "C02"
 LEVEL = "proof"
 COQ_DIRS = ("Common", "C09_Transforms")
 TRUSTED = [
+    "PARTIAL: the check is a proof about the decode / membership / canonicalisation / ask-dispatch logic deephyper adds; everything numeric "
+    "below is an oracle of the model, and the search-level tie is trace acceptance on sampled option tuples (not exhaustive)",
     "library numerics are universally quantified oracles of the model, not modelled: surrogate fit / predict (sklearn forests, GP, "
     "gradient boosting), acquisition values, scipy fmin_l_bfgs_b, pymoo, ConfigSpace sampling, quasi-random sequences, libm log10 / pow, "
     "binary64 rounding; membership is established by the final decode (C02_decode_in_space holds for EVERY transformed vector)",
@@ -672,7 +674,10 @@ def pairwise_rows(rng, axes, extra=0):
 def gen_search(quick_n, thorough_seeds=2):
     def gen(rng, tier):
         opts = enum_options()
-        axes = dict(surrogate=[s for s in opts["surrogates"]], acq=opts["acq"], strategy=opts["strategies"], design=opts["designs"],
+        import deephyper.skopt.learning as learning
+
+        have_mf = hasattr(learning, "MondrianForestRegressor")  # optional dependency (scikit-garden)
+        axes = dict(surrogate=[s for s in opts["surrogates"] if s != "MF" or have_mf], acq=opts["acq"], strategy=opts["strategies"], design=opts["designs"],
                     kind=list(KINDS), fail=list(FAILS), workers=[1, 2, 3, 4])
         rows = pairwise_rows(rng, axes, extra=0 if tier != "thorough" else 110)
         if tier == "quick":
@@ -686,6 +691,9 @@ def gen_search(quick_n, thorough_seeds=2):
                 cases.append(dict(search="CBO", surrogate=r["surrogate"], acq=r["acq"], strategy=r["strategy"], design=r["design"],
                                   problem=gen_problem(rng, r["kind"]), fail=r["fail"], workers=r["workers"], seed=rng.randint(0, 2 ** 20),
                                   evals=rng.randint(12, 20), n_init=rng.randint(3, 6), n_points=200))
+        if not have_mf:  # recorded as skipped (the constructor accepts the name, the dependency is missing)
+            cases.append(dict(search="CBO", surrogate="MF", acq="UCB", strategy="cl_max", design="random", problem=gen_problem(rng, "float"),
+                              fail="none", workers=1, seed=1, evals=6, n_init=3, n_points=50))
         # constrained spaces: random design, tree / dummy surrogates
         nc = 6 if tier == "quick" else 4 if tier == "search" else 60
         for i in range(nc):
